@@ -7,9 +7,17 @@ func init() {
 		"a clean batch is evidence, not proof: the search samples schedules of client operations, it does not enumerate them",
 	}
 	reg("C06", &propCfg{Engine: "memsim", Level: "exploration", QuickRuns: 24000, ThorRuns: 1200000, QuickSecs: 60, ThorSecs: 900,
-		Rule: "one case = one seeded run: generated node set (types, capacities, movable/memory-less nodes, line/ring/two-level/random/asymmetric distance matrices, optional custom expansion), 2-5 simulated clients issuing 8-60 GetOffer/Commit(arbitrarily late, possibly twice)/Allocate/Realloc/Release/Reset operations in a seeded interleaving; capacity exhaustion, duplicate ids, unknown nodes and stale offers are the injected failures. A state is the canonical dump of the public observation (AssignedZone of every id ever used, ForeachRequest, ZoneUsage of every zone ever seen) after an operation; distinct_nontrivial counts distinct such states reached by runs with >= 2 state-changing operations or >= 1 failed operation.",
+		Rule:        "one case = one seeded run: generated node set (types, capacities, movable/memory-less nodes, line/ring/two-level/random/asymmetric distance matrices, optional custom expansion), 2-5 simulated clients issuing 8-60 GetOffer/Commit(arbitrarily late, possibly twice)/Allocate/Realloc/Release/Reset operations in a seeded interleaving; capacity exhaustion, duplicate ids, unknown nodes and stale offers are the injected failures. A state is the canonical dump of the public observation (AssignedZone of every id ever used, ForeachRequest, ZoneUsage of every zone ever seen) after an operation; distinct_nontrivial counts distinct such states reached by runs with >= 2 state-changing operations or >= 1 failed operation.",
 		Assumptions: memAssume})
 	reg("C07", &propCfg{Engine: "memsim", Level: "exploration", QuickRuns: 24000, ThorRuns: 1200000, QuickSecs: 60, ThorSecs: 900,
 		Rule:        "same runs as C06 with the placement oracles evaluated after every successful Allocate/Realloc/Commit: capacity of every assigned zone and of every union of assigned zones (computed from request sizes and the generated node capacities, independently of the allocator's accounting), strict types, normal memory in every newly assigned zone, superset-only moves, immovable reservations, realloc never removes nodes, returned update map == exactly the set of changed assignments. distinct_nontrivial as for C06.",
 		Assumptions: memAssume})
+	reg("C10", &propCfg{Engine: "cachesim", Level: "fault_enumeration", QuickRuns: 1600, ThorRuns: 60000, QuickSecs: 75, ThorSecs: 1200,
+		Rule: "one case = one sampled history of 6-22 cache operations (InsertPod/InsertContainer with generated labels, annotations incl. affinity/preserve/memory-type/class keys, mounts, devices, pod resources, cgroup resources of every QoS shape; Set* of every resource field, tags, state, resource updates, policy entries of every supported kind incl. a Cacheable, DeletePod/DeleteContainer, Save, SetActivePolicy, clean restart) executed fault-free, then re-executed once per fs-op boundary of the whole history with a crash before it, a crash after it, for writes a crash after 0,1,len/2,len-1 and a random number of bytes, a short write + ENOSPC, and an error return (ENOSPC/EIO/EACCES); then one tampering of the state directory. evaluations = histories; extra.fs-op-boundaries-enumerated = faulty re-executions. A state is the canonical dump of every public getter of every pod, container and policy entry after a reload; distinct_nontrivial counts distinct reloaded dumps from histories with >= 2 saves.",
+		Assumptions: []string{
+			"durability model is process kill (every completed fs operation is visible afterwards, nothing reordered); power-loss semantics are not modelled because the property is stated for a killed process or a failing write",
+			"every os.* call and *os.File method of pkg/resmgr/cache is routed through the shim by verifgen; a new I/O path that bypasses package os (syscall.*) would not be seen",
+			"observation excludes ctime, pending marks and the cached PrettyName, which the property does not list",
+			"histories avoid InsertContainer for an unknown pod, SetResourceUpdates on containers without Linux resources and GetAffinity on orphaned containers: they panic at this commit and are C14's subject",
+		}})
 }
